@@ -6,6 +6,34 @@ ROOT = os.path.dirname(os.path.dirname(os.path.abspath(__file__)))
 # id -> (technique, level text, level note, design ref)
 EXPL = "Exploration: verdict is 'held on the executions observed'. "
 CLAIMED = {
+ "C01": ("statistical runtime monitor: thousands of independent item sets per (family, configuration, path, cardinality) cell; deterministic clauses on every observation, bias / spread / coverage per cell by hypothesis tests with stated tolerances",
+         EXPL + "HLL (HIP, coupon regime, composite estimator of unions), CPC (HIP, ICON of unions, CpcWrapper) and theta (exact, estimation, sampling p<1) observed at n = 0 and ~33 checkpoints up to 65536 on streamed, round-tripped and merged sketches. Unbiasedness and coverage are statements about the distribution over inputs; only a population of executions can refute them.",
+         "Tolerances are part of the claim: bias 0.15 RSE + 6 sd/sqrt(T), spread 1.25 RSE, coverage nominal - (0.04, 0.025, 0.006) tested by an exact binomial tail at 1e-9; effects below them are invisible. T = 400 per cell in quick, 6000 in thorough.",
+         "DESIGN.md 5 (C01)"),
+ "C11": ("runtime round-trip monitor: deserialize(serialize(s)) compared with s accessor by accessor, hooked state by state, byte by byte, then under identical further updates and merges",
+         EXPL + "Generated states of all seven families (every HLL mode/type incl. exceptions, cur_min > 0 and out-of-order union results; compact theta incl. synthetic entry sets of every delta width 1..63 and length 0..=4100; every CPC flavor and many offsets; Bloom; Count-Min in 8 counter types; Frequent Items i64/u64/String incl. purged-empty; t-digest).",
+         "Byte identity is required where the layout is canonical (not for Frequent Items item order and the HLL_4 exception list order, which follow hash-table layout; compared as decoded states). HIP after a later promotion and purge offsets after the round trip are order dependent and not compared.",
+         "DESIGN.md 5 (C11)"),
+ "C12": ("runtime differential monitor: every emitted image decoded by an independent spec decoder (written from the published Java/C++ layouts) and compared with the reference model of the stream",
+         EXPL + "Same generated states as C11; the decoders (harness/src/spec: HLL, theta v1-v4, CPC FM85, Bloom, Count-Min, Frequent Items, t-digest) check every preamble field, flag, length and padding and return the abstract state, which must equal the model's.",
+         "Trusted: my reading of the Java/C++ layouts; CPC compression tables are pinned from this commit (sha256 recorded, internal consistency self-checked at start-up). No cross-language .sk files exist in the sandbox.",
+         "DESIGN.md 5 (C12)"),
+ "C13": ("runtime differential monitor: images produced by independent spec encoders in every Java/C++ variant are deserialized by the library and compared with the encoded state, then united / updated / re-serialized",
+         EXPL + "HLL compact and updatable forms (aux list vs aux hash table, out-of-order flag, cur_min > 0), theta serial versions 1-4 (empty, single item with/without flag, exact, estimating, ordered/unordered, Java/C++ padding), CPC all flavors with/without HIP and stale first-interesting-column, t-digest nine image classes x four encodings, Bloom dirty counts, Count-Min, Frequent Items flag conventions.",
+         "Trusted: spec encoders (harness/src/spec). Variants are those I know Java/C++ to emit; no foreign files are available to confirm.",
+         "DESIGN.md 5 (C13)"),
+ "C14": ("runtime event monitor: panic hook + allocation monitor (refusing global allocator, alloc-error hook) around 20 deserialize entry points fed structure-aware mutations of valid images; Ok values driven through a post phase",
+         EXPL + "Seeds are valid images of every family/variant/mode (library-written and spec-encoded); mutators: field-aware boundary values from the spec decoders' field maps, bit flips, byte sets, payload-word replacement, truncation at every offset, extension, splicing, random tails, random strings; run in the rel and the dbg (overflow-checks, debug-assertions) profile.",
+         "Allocation is 'out of proportion' above 1 MiB + 64 bytes per input byte (plus what an Ok value retains); empty Bloom / Count-Min / Frequent-Items images may legitimately declare large tables. Looping is detected by the driver's shard watchdog only.",
+         "DESIGN.md 5 (C14)"),
+ "C17": ("runtime event monitor: valid-use programs (the histories of the behavioural monitors plus an extremes lane at documented limits) executed under debug-assertions + overflow-checks and under release; any panic is a violation",
+         EXPL + "Every debug_assert!, unreachable!, expect and arithmetic overflow in the library is armed in the dbg profile; programs include HLL lg_k 4/21 with cur_min shifts and exceptions, CPC lg_k 4/21/26 incl. windowed sketches at lg_k 21, t-digest k up to 65535 and empty split lists, Count-Min totals at the counter type's maximum.",
+         "Documented panics (out-of-range parameters, incompatible merges, NaN rank, unsorted splits, seeds with a zero seed hash) are excluded by construction. Paths not driven are not covered.",
+         "DESIGN.md 5 (C17)"),
+ "C18": ("runtime measurement monitor: serialized sizes / retained counts after every power-of-two prefix of long streams vs the bound the configuration implies; CPC size claim by a binomial test over trials",
+         EXPL + "Streams of up to 2^20 (2^22 thorough) distinct / repeated / scattered items into HLL, theta, Frequent Items, Bloom, Count-Min, t-digest; CPC: trials streaming to C = 8K with the maximum image size over 80 points in C/K in [3,8] against max_serialized_bytes.",
+         "HLL sizes are judged against the mode the (spec-decoded) image itself declares. CPC claim: <= 0.1% of trials + 6 sigma binomial margin, never by more than 25%.",
+         "DESIGN.md 5 (C18)"),
  "C02": ("runtime reference-model monitor: Hll4/Hll6/Hll8 instances vs textbook per-slot-maximum model, state dumped through hooks after every operation; dump invariants and HIP increment law",
          EXPL + "Generated histories (crafted coupon phases reaching value 63, cur_min shifts with live aux exceptions, hashed items with duplication, permutations) are fed to the real sketches and to an exact model; the full hooked state is compared after every operation for lg_k<=8 and at checkpoints above. State equality for all streams cannot be settled by examples; comparing the whole state after every prefix of thousands of adversarial histories is the strongest oracle this family has.",
          "Trusted: the HLL model (harness/src/model/hll.rs), the reference MurmurHash3; coupons injected through the hook are assumed reachable by hashing. lg_k 13..21 only in the thorough tier, at checkpoints.",
